@@ -66,7 +66,16 @@ def handlePath (s : DState) (toks : List String) : Option Out :=
       | _, _ => none
     | none, some _, some _, some _ => some (s, ["noslot"])
     | _, _, _, _ => none
-  | ["oracle", "sub", _, _, _] => some (s, ["oracle ok"])
+  | ["oracle", "sub", src, root, leaves] =>   -- harness-side oracle; same op validity as `sub`
+    match src.toNat?, root.toNat?, parseIds leaves with
+    | some n, some r, some ls =>
+      match s.slot n with
+      | none => some (s, ["noslot"])
+      | some o =>
+        match o.get r, resolveAll o ls with
+        | some _, some _ => some (s, ["oracle ok"])
+        | _, _ => none
+    | _, _, _ => none
   | _ => none
 
 end Drv
